@@ -127,8 +127,10 @@ def execute(family, cfg, chooser, *, max_steps=None, real_timeout=120.0):
   simcfg = cfg.get('sim', {})
   s = sched.Sim(
       chooser,
+      # (line-level pre-emption multiplies the steps of busy-polling code)
       max_steps=max_steps or max(simcfg.get('max_steps', 0),
-                                 getattr(family, 'max_steps', 300_000)),
+                                 getattr(family, 'max_steps', 300_000)) * (
+                                     6 if simcfg.get('fine') == 'line' else 1),
       # with function-entry pre-emption one operation costs many more steps
       spin_k=simcfg.get('spin_k', 300) * (
           40 if simcfg.get('fine') == 'line' else 12 if simcfg.get('fine') else 1),
